@@ -71,6 +71,8 @@ mod split;
 use compact::{Builder, OptBuilder};
 pub use error::{GameError, SolveError, StratError};
 pub use solve::RegretParams;
+#[cfg(cfr_verif)]
+pub use solve::verif_multinomial_sample;
 use solve::{external, vanilla};
 use split::{split_by, split_by_mut};
 use std::borrow::Borrow;
